@@ -221,3 +221,52 @@ PROPS['C18'] = {
 }
 for _k in PROPS:
     NOT_APPLICABLE.pop(_k, None)
+
+
+# ---- amendments (units added after the first registration; kept as replacements so that a stale phrase cannot survive unnoticed)
+
+def _amend(pid, field, old, new):
+    assert old in PROPS[pid][field], (pid, field, old[:50])
+    PROPS[pid][field] = PROPS[pid][field].replace(old, new)
+
+
+_amend('C02', 'note', 'Not under contract: product-space weightings, custom inner/norm/dist, ndim >= 3 boundary scaling',
+       'Product-space array / constant weightings are under contract over abstract component inner products (p in {1, 2, inf}). Not under contract: general p on product spaces, '
+       'custom inner/norm/dist, ndim >= 3 boundary scaling')
+_amend('C03', 'note', 'bounded unit); _calls of tensor_ops / pspace_ops / transforms are not under contract here',
+       'bounded unit); ProductSpaceOperator._call is proved per entry pattern / visiting order of the operator matrix (68 enumerated patterns, all operators and inputs); the sort-based '
+       'proj_simplex is taken by contract and that contract is cross-checked natively (bounded unit); _calls of tensor_ops / other pspace_ops / transforms are not under contract here')
+_amend('C05', 'note', 'Not under contract: MatrixOperator, sampling, block operators',
+       'PointwiseInner / PointwiseInnerAdjoint on weighted power spaces and operators between real and complex spaces are under contract. Not under contract: MatrixOperator, sampling, block operators')
+_amend('C06', 'note', 'Not under contract: PointwiseNorm, ufunc operators, Norm/Dist operators, product-space operators',
+       'PointwiseNorm.derivative is under contract (weights, vector field, frame; sympy gradient lemma). Not under contract: ufunc operators, Norm/Dist operators, other product-space operators')
+_amend('C08', 'note', 'Partial: built-in pairs other than L2NormSquared (Lp / indicator balls, KL, Huber, QuadraticForm) are not under contract',
+       'Lp-norm / dual-ball pairs are under contract; partial: other built-in pairs (KL, Huber, QuadraticForm) are not')
+_amend('C10', 'note', 'not reached: proj_l1/proj_simplex based proximals (sorting), Lambert-W, product-space (group) proximals',
+       'proj_l1 and the L-infinity proximals are under contract with proj_simplex (sorting) taken by contract - cross-checked natively by a bounded unit; not reached: Lambert-W, '
+       'product-space (group) proximals')
+_amend('C13', 'note', 'The operator classes (PartialDerivative/Gradient/Divergence/Laplacian: delegation to finite_diff, adjoint/derivative constructor arguments) are not under contract yet',
+       'The operator classes (PartialDerivative/Gradient/Divergence/Laplacian) are under contract for the constructor arguments of derivative / adjoint (class units)')
+_amend('C15', 'technique', 'z3 / sympy normal form',
+       'z3 / sympy normal form; the sampling of callables (reflection on user callables) only by a BOUNDED native stand-in that is labelled bounded and never counted as proved')
+_amend('C15', 'note', 'NOT under contract: creating elements from callables (sampling_function, vectorize, _make_dual_use_func: reflection / exception-driven control flow), meshgrid input, ndim >= 3, outside the hull',
+       "Resampling's hand-over of the per-axis schemes is under contract. Creating elements from callables (sampling_function, vectorize, _make_dual_use_func: reflection / exception-driven "
+       'control flow) has NO deductive contract: bounded native units sampling/* (callable kinds x floating dtypes x two-use histories of one callable object, > 1000 evaluations) stand in, '
+       'never counted as proved; they found one defect that was repaired. Not decided: meshgrid bookkeeping, ndim >= 3, outside the hull')
+_amend('C16', 'note', 'ResizingOperator / _resize_discr not under contract yet',
+       '_resize_discr (1 axis, and with a second axis of unchanged size) and ResizingOperator.__init__ offsets are under contract')
+_amend('C17', 'note', 'reduce / outer result spaces of DiscretizedSpaceElement (partition algebra)', 'reduce result spaces of DiscretizedSpaceElement (partition algebra)')
+_amend('C18', 'technique', 'term algebra with the DFT inversion theorem for the back-end dispatch, z3',
+       'term algebra with the DFT inversion theorem for the back-end dispatch, z3; the complex phase factors and the wavelet coefficient bookkeeping only by BOUNDED native stand-ins '
+       '(every basis vector of small grids), labelled bounded and never counted as proved')
+_amend('C18', 'note', 'NOT decided (out of reach of contracts on this code base): the numerical kernels of numpy.fft / pyfftw / PyWavelets, convergence of the continuous transform to the analytic Gaussian, '
+       'wavelet coefficient flattening / cropping, pre-processing phase factors, in-place plan reuse, rounding',
+       'Wavelet adjoint scaling / partner arguments are under contract (PyWavelets orthogonality trusted). BOUNDED stand-ins (never counted as proved): ft-definition/* compares FourierTransform '
+       'of both back-ends with its defining quadrature sum on every basis vector of small grids (linear operator: a basis decides all inputs of that shape) for all axes subsets x shifts x sign x '
+       'real / complex / half-complex, wavelet-roundtrip/* does the same for W.inverse(W(e)) over wavelet families x levels x padding modes. 2 known findings (half-complex with an unshifted '
+       'non-halved axis; wavelet adjoint with an odd length), 1 defect repaired. NOT decided: the numerical kernels of numpy.fft / pyfftw / PyWavelets, convergence to the analytic Gaussian, '
+       'arbitrary shapes for the bounded parts, plan reuse across calls, rounding')
+_amend('C19', 'note', 'Not under contract: constructors / frommatrix, the factories parallel_beam_geometry / cone_beam_geometry',
+       'Detector constructors (assume-guarantee), slicing and the detector coverage of parallel_beam_geometry are under contract; cone_beam_geometry coverage is a known finding. '
+       'Not under contract: geometry constructors / frommatrix, sampling rates of the factories')
+_amend('C20', 'note', 'Not under contract: element() factories', 'astype chains through the real / complex space caches are under contract. Not under contract: element() factories')
